@@ -1094,3 +1094,41 @@ Example minres_stable_example :
   law_minres_stable sp xs (mkR 1 100 64) = true /\
   law_minres sp xs (mkR 1 250 0) = true /\ law_minres_stable sp xs (mkR 1 250 0) = false.
 Proof. vm_compute. auto. Qed.
+
+(* ---------- the resync worker (syncTask after a failed pod delete; round 8) ---------- *)
+(* whatever the API server holds, with or without the pod disappearing between the worker's GET and its
+   cache.UpdatePod: syncTask never ADDS a pod to the job cache (UpdatePod refuses a pod the cache does not
+   hold), the job status and the API server's other pods are untouched; and a pod the API server no longer
+   has is not in the cache afterwards *)
+Theorem resync_adds_no_pod : forall w t i race w' e wr,
+  step w (OResyncPod t i race) = (w', e, wr) ->
+  incl (pod_ids (v_pods w')) (pod_ids (v_pods w)) /\ incl (pod_ids (w_pods w')) (pod_ids (w_pods w)) /\
+  w_st w' = w_st w /\ v_st w' = v_st w /\ e = false /\ wr = false /\
+  (find_pod t i (w_pods w') = None -> find_pod t i (w_pods w) = None \/ race = true).
+Proof.
+  intros w t i race w' e wr H. cbn [step] in H.
+  assert (R : forall l, incl (pod_ids (remove_pod t i l)) (pod_ids l)).
+  { intros l x Hx. unfold pod_ids, remove_pod in *. apply in_map_iff in Hx. destruct Hx as (p & <- & Hp).
+    apply filter_In in Hp. apply in_map_iff. exists p. tauto. }
+  destruct (find_pod t i (w_pods w)) eqn:E; [destruct race|]; inversion H; subst; clear H; cbn [v_pods w_pods w_st v_st];
+    repeat split; auto using incl_refl.
+  - unfold find_pod in E. apply find_some in E. destruct E as [_ E].
+    assert (U : pod_ids (update_pod t i (fun _ => p) (v_pods w)) = pod_ids (v_pods w)).
+    { unfold pod_ids, update_pod. rewrite map_map. apply map_ext_in. intros q _.
+      destruct (same_id t i q) eqn:Q; [|reflexivity].
+      unfold same_id in *. apply andb_true_iff in E, Q. destruct E as [E1 E2], Q as [Q1 Q2].
+      apply Pos.eqb_eq in E1, Q1. apply Z.eqb_eq in E2, Q2. congruence. }
+    rewrite U. apply incl_refl.
+  - intros X. rewrite E in X. discriminate.
+Qed.
+
+Example resync_example :
+  let st := mkStatus PhRunning 0 0 2 (mkC 0 2 0 0 0) 0 [] false false in
+  let sp := mkSpec [mkTask 1 2 None [] None] 2 None 3 [] in
+  let w := init_world sp st [mkPod 1 0 PRunning false false; mkPod 1 1 PRunning false true] (Some PgRunning) in
+  (* the out-of-sync pod's DELETE is refused; the resync is raced by the pod's disappearance; after the
+     deliveries the next sync re-creates index 1: one pod per replica index *)
+  w_pods (run w [OReq (mkReq EOutOfSync None None None 0 0 1) [FDelete 1 1]; OResyncPod 1 1 true;
+                 OSyncPods; OSyncPg; OSyncJob; OReq (mkReq EOutOfSync None None None 0 0 1) []]) =
+  [mkPod 1 0 PRunning false false; mkPod 1 1 PPending false false].
+Proof. vm_compute. reflexivity. Qed.
